@@ -81,6 +81,30 @@ def metrical_switch_family(phase):
     return out
 
 
+def goto_error_family(tier, phase):
+    """Goto's longest-correct-track logic needs >= 3 incorrect beats and a long reference: a regular 10-beat reference
+    (1 s apart); every inner beat of the estimate is exact, late by 3/16 s (relative to the half interval of
+    0.5 s: error 0.375, just above the default threshold 0.35 and below the alternative 0.5) or missing.  quick: all patterns with 3 or 4 non-exact inner
+    beats (1568); thorough: all 3^8 patterns."""
+    import itertools
+    base = Fr(5) + Fr(phase, 4)
+    ref = [base + k for k in range(10)]
+    out = []
+    for word in itertools.product((0, 1, 2), repeat=8):
+        bad = sum(1 for w in word if w)
+        if tier != "thorough" and bad not in (3, 4):
+            continue
+        est = [ref[0]]
+        for i, w in enumerate(word):
+            if w == 0:
+                est.append(ref[i + 1])
+            elif w == 1:
+                est.append(ref[i + 1] + Fr(3, 16))
+        est.append(ref[9])
+        out.append((tuple(float(x) for x in ref), tuple(float(x) for x in est)))
+    return out
+
+
 def pair_space(tier, phase):
     thorough = tier == "thorough"
     pts = lattice(phase, (0, 1, 2, 8, 9, 16, 24) if thorough else (0, 1, 2, 8, 9, 16))
@@ -95,7 +119,7 @@ def pair_space(tier, phase):
             if (ref, est) not in seen:
                 seen.add((ref, est))
                 states.append((ref, est))
-    for st in metrical_switch_family(phase):
+    for st in metrical_switch_family(phase) + goto_error_family(tier, phase):
         if st not in seen:
             seen.add(st)
             states.append(st)
